@@ -9,11 +9,15 @@
 (*    "f1"    fixed format,      key 5h ASC 24h ASCQ 00h                     *)
 (*    "d2"    descriptor format, key 6h ASC 29h ASCQ 00h                     *)
 (*    "f3"    fixed format,      key 2h ASC 04h ASCQ 01h                     *)
+(*    "t8"    fixed format cut after byte 7 (ADDITIONAL SENSE LENGTH 0):      *)
+(*            key 3h, no additional sense code: reads as 00h / 00h           *)
+(*    "t4"    descriptor format cut after byte 3: key 4h ASC 44h ASCQ 00h     *)
 (***************************************************************************)
 EXTENDS Naturals, Sequences, FiniteSets, TLC
 
-SenseIds == {"none", "f1", "d2", "f3"}
+SenseIds == {"none", "f1", "d2", "f3", "t8", "t4"}
 Triple(s) == CASE s = "f1" -> <<5, 36, 0>> [] s = "d2" -> <<6, 41, 0>> [] s = "f3" -> <<2, 4, 1>>
+               [] s = "t8" -> <<3, 0, 0>> [] s = "t4" -> <<4, 68, 0>>
                [] OTHER -> <<0, 0, 0>>
 
 GOOD == 0
